@@ -5,3 +5,7 @@ mod share_conversion_aby;
 pub(crate) mod step;
 pub use share_conversion_aby::{convert_to_fp25519, expand_shared_array_in_place};
 pub mod sigmoid;
+
+// Verification harness accessor for the (currently unused) private `integer_mul`.
+#[cfg(all(test, feature = "ipa-verif"))]
+pub(crate) use multiplication::integer_mul as ipa_verif_integer_mul;
